@@ -466,6 +466,7 @@ class Machine:
         if hook is not None:
             r = hook(self, s)
             if r is not NotImplemented: return r
+        if re.fullmatch(r'[\w:]+(<.*>)? \{\{ *\}\}', s): return []       # value of a field-less struct (e.g. the no_std parity_scale_codec::Error)
         raise Inconclusive('const: ' + s)
 
     def str_const(self, s):
